@@ -50,10 +50,14 @@ META = {
             "request index refused (the refused call re-issued at once) and with each index and all later ones refused, by the "
             "C built from the current tree (ASan+UBSan+LeakSanitizer, a_alloc replaced by a scheduling shim with its own ledger) "
             "and by the extracted models; results, container dumps, request traces (kind, size, answer) and ledger are compared "
-            "line by line; the oracle re-checks the four clauses on the C output alone.",
+            "line by line; the oracle re-checks the four clauses on the C output alone. Second tie (translators tools/c2str.py and "
+            "tools/c2vec.py, the same as in C06 / C04): str.c, vec.c and buf.c are regenerated from the current sources on every run "
+            "and proved equal to StrDefs.v / VecDefs.v for every state, argument and allocator SCHEDULE - the refused-request paths "
+            "are part of what is tied (31 + 70 tie theorems).",
     "note": "Trusted: Coq kernel; extraction (ExtrOcamlBasic only) and the drivers harness/C06/drv.c (c07 mode), harness/C04/drv.c, "
             "harness/C07/que_drv.c, harness/C07/{str,que}_mdrv.ml, harness/C04/mdrv.ml; the hand-written models of C06/C04/C05 "
-            "(tied by differential testing only, here under the enumerated schedules). Modelled, not verified: malloc/realloc/free "
+            "(string and vector/buffer: tied by the translator tie theorems and by differential testing; queue: by differential "
+            "testing, here under the enumerated schedules); the translators' reading of the C. Modelled, not verified: malloc/realloc/free "
             "as a schedule-driven oracle with a ledger (a refused realloc keeps the old block); for a_que the pool array is not a "
             "block of the model (it exists iff mem_ > 0), block sizes of queue nodes are not tracked (the tie compares the number "
             "of live blocks and the sizes in the request trace), 'no release of a non-live block' is expressed by the block count "
@@ -63,7 +67,8 @@ META = {
             "assume a_que_swap_ is applied to enqueued elements. Memory safety of the C is observed by the sanitizers, not proved. "
             "No axioms.",
     "technique": "Rocq proof (invariants over histories and fault schedules, control-flow analysis of every allocation point, "
-                 "ledger/cardinality accounting) + fault-enumerating extracted-model vs C correspondence under ASan/UBSan/LSan",
+                 "ledger/cardinality accounting) + str.c / vec.c / buf.c regenerated by translators and proved equal to the models for "
+                 "every allocator schedule + fault-enumerating extracted-model vs C correspondence under ASan/UBSan/LSan",
     "category": "proof",
 }
 
@@ -1144,6 +1149,22 @@ def run(ctx):
                 f.unlink()
     if ctx.prove() and not ctx.quick:
         coqchk(ctx)
+    # translator ties of the container code this property is about (the same regenerated functions and tie theorems as in
+    # C04 / C06: the models carry the allocator's fault schedule, so the failure paths are part of what is tied), run beside
+    # the fault enumeration
+    import threading
+    import vstr
+    import vvec
+    vec_tie = vvec.start(ctx)
+    str_box = {}
+
+    def _str_tie():
+        try:
+            str_box["ok"] = vstr.str_translate_and_tie(ctx)
+        except Exception as e:  # noqa: BLE001
+            str_box["error"] = "%s: %s" % (type(e).__name__, e)
+    str_th = threading.Thread(target=_str_tie, name="vstr")
+    str_th.start()
     ctx.cov["parts"] = {}
     tot_ops = 0
     nontrivial = 0
@@ -1187,6 +1208,11 @@ def run(ctx):
                                "failing_op_index": f2[0], "expected": f2[2], "c_output": co, "model_output": mo,
                                "original_case": c.cid}, found_input=True)
     ctx.count(evaluations=tot_ops, nontrivial=nontrivial)
+    vvec.finish(ctx, vec_tie)
+    str_th.join()
+    if "ok" not in str_box:
+        ctx.cov["obligations"] += 1
+        ctx.tie_broken("translator tie of str.c (tools/vstr.py) did not run: %s" % str_box.get("error", "?"))
     reached = set()
     for st in ctx.cov["parts"].values():
         reached |= set(st.get("refused_by_function", {}))
